@@ -27,7 +27,7 @@ func init() {
 			"known fixed-length meta events are generated with their spec length (tempo 3 bytes non-zero, etc.)",
 			"header length is 6 (statement)",
 		},
-		Require: []string{"many_unknown_chunk_files", "huge_unknown_chunk_files", "reads_with_eof_delivered_with_data", "files", "feat:running_status", "feat:padded_vlq", "feat:f0_without_f7", "feat:f7_packet", "feat:unknown_meta", "feat:long_payload", "feat:alien_before", "feat:alien_between", "feat:alien_after", "feat:smpte", "decoder_crosschecks", "events_compared", "messages_classified", "pipe_reads", "reads_with_log_option", "appends_to_read_messages"},
+		Require: []string{"many_unknown_chunk_files", "huge_unknown_chunk_files", "reads_with_eof_delivered_with_data", "files", "feat:running_status", "feat:padded_vlq", "feat:f0_without_f7", "feat:f7_packet", "feat:unknown_meta", "feat:long_payload", "feat:alien_before", "feat:alien_between", "feat:alien_after", "feat:smpte", "decoder_crosschecks", "events_compared", "messages_classified", "pipe_reads", "reads_with_log_option", "appends_to_read_messages", "rereads_after_in_place_edit_of_the_first_result"},
 		UsesCur: true,
 		Run:     runC02,
 	})
@@ -118,6 +118,31 @@ func c02Check(c *mon.Ctx, f *ref.EncFile, label string) {
 		c.Count("appends_to_read_messages", int64(len(all)))
 		if diff := ref.EqualFiles(truth, fromLib(s)); diff != "" {
 			c.Violation("read-value-aliased", fmt.Sprintf("after appending four bytes to the messages of the value that was read (in a shuffled order, results discarded) the value itself differs from what was read (%s): %s", label, diff), in, describeFile(truth, 30), describeFile(fromLib(s), 30))
+			return
+		}
+	}
+	// the caller edits the value it got in place (every byte of every message overwritten) and reads the same
+	// stream again: the second read returns what the stream says, not what the caller did to the first result
+	if nev > 0 && nev < 4000 && len(b)%4 == 3 {
+		for t := range s.Tracks {
+			for k := range s.Tracks[t] {
+				m := s.Tracks[t][k].Message
+				for j := range m {
+					m[j] ^= 0x29
+				}
+			}
+		}
+		s3, err3, panicked3 := readLib(c, "panic:ReadFrom (second read)", in, b)
+		if panicked3 {
+			return
+		}
+		c.Count("rereads_after_in_place_edit_of_the_first_result", 1)
+		if err3 != nil {
+			c.Violation("reread-error", fmt.Sprintf("second ReadFrom of the same spec-valid stream (%s), after the caller overwrote the messages of the first result in place, fails: %v", label, err3), in, "value", err3.Error())
+			return
+		}
+		if diff := ref.EqualFiles(truth, fromLib(s3)); diff != "" {
+			c.Violation("reread-content", fmt.Sprintf("second ReadFrom of the same spec-valid stream (%s), after the caller overwrote the messages of the first result in place, differs from the specification decoder: %s", label, diff), in, describeFile(truth, 30), describeFile(fromLib(s3), 30))
 			return
 		}
 	}
